@@ -139,20 +139,58 @@ def run(ctx):
     if b is None:
         return report.finish()
     an = ctx.whole.results[b.id]
-    names = {v: k for k, v in b.local_names().items()}
-    need = ["pointer_position", "name_size", "following_compression_pointer", "labels"]
-    for n in need:
-        if n not in names:
-            report.lost_anchor("local `%s` of Name::parse" % n)
-    if report.violations:
-        return report.finish()
-    pp = "_%d" % names["pointer_position"]
-    ns = "_%d" % names["name_size"]
-    flag = names["following_compression_pointer"]
+    # the loop variables are found by role, not by name:
+    #   flag - the constant-assigned boolean the analysis partitions on (helper-return flags added by the inliner excluded)
+    #   pp   - the loop-carried cursor that indexes the length byte read from `data`
+    #   ns   - the loop-carried counter compared with the 255-byte limit
+    import re as _re
+    dbg = b.local_names()
+    real_modes = [m for m in an.modes if not str(dbg.get(m, "")).startswith("inlined_helper_failed")]
     report.count()
-    if an.modes != [flag]:
-        viol(report, "C06-R6", b, "mode", "the pointer-following flag is no longer a constant-assigned boolean (modes: %s)" % an.modes)
+    if len(real_modes) != 1:
+        viol(report, "C06-R6", b, "mode", "Name::parse no longer has exactly one constant-assigned boolean tracking whether a pointer was "
+             "followed (candidates: %s)" % [dbg.get(m) for m in real_modes])
         return report.finish()
+    flag = real_modes[0]
+    fi = an.modes.index(flag)
+
+    def fmode(n):
+        return n[1][0][fi]
+
+    def success_partition(n):
+        return all(v in (0, None) for i, v in enumerate(n[1][0]) if i != fi)
+    cands = set()
+    for e in an.elems:
+        if e["root"] != "_1":
+            continue
+        for sname in e["off"].syms():
+            m = _re.search(r"\):(_\d+)$", sname)
+            if m:
+                cands.add(m.group(1))
+    if len(cands) != 1:
+        report.lost_anchor("the read cursor of Name::parse (loop-carried index of the length byte; candidates %s)" % sorted(cands))
+        return report.finish()
+    pp = list(cands)[0]
+    defs0 = mu.defs_of(b)
+    loopvars = set()
+    for n, (phis, incoming, back) in an.join_info.items():
+        loopvars |= set(k for k in phis if _re.match(r"^_\d+$", k))
+    nsc = set()
+    for bl in b.blocks:
+        if bl["cleanup"]:
+            continue
+        for st0 in bl["stmts"]:
+            if st0["s"] == "assign" and st0["rv"]["k"] == "bin" and st0["rv"]["op"] in ("Ge", "Gt", "Lt", "Le", "Eq", "Ne"):
+                a0, b0 = st0["rv"]["a"], st0["rv"]["b"]
+                for x, y in ((a0, b0), (b0, a0)):
+                    if y["o"] == "const" and y["k"].get("c") == "int" and int(y["k"]["v"]) in (254, 255, 256):
+                        l0 = mu.origin_local(b, defs0, mu.op_local(x))
+                        if l0 is not None and "_%d" % l0 in loopvars and "_%d" % l0 != pp:
+                            nsc.add("_%d" % l0)
+    if len(nsc) != 1:
+        report.lost_anchor("the size counter of Name::parse (loop-carried value compared with the 255-byte limit; candidates %s)" % sorted(nsc))
+        return report.finish()
+    ns = list(nsc)[0]
     # ---- R5 bounds (panic rule restricted to this body)
     for o in an.obligations:
         report.count()
@@ -220,8 +258,8 @@ def run(ctx):
                  "measure: pointers are not shown to go strictly backwards / cycles to terminate (%s: %s)" % (tpl, why))
         # ---- R6 partitions
         heads = {n: v for n, v in an.join_info.items() if n[0] == h}
-        part0 = [n for n in heads if n[1][0] == (0,) and n[1][1] == "s"]
-        part1 = [n for n in heads if n[1][0] == (1,) and n[1][1] == "s"]
+        part0 = [n for n in heads if fmode(n) == 0 and n[1][1] == "s" and success_partition(n)]
+        part1 = [n for n in heads if fmode(n) == 1 and n[1][1] == "s" and success_partition(n)]
         report.count(2)
         if not part0 or not part1:
             viol(report, "C06-R6", b, "partitions", "expected a not-following and a following partition of the loop head (got %s)" % sorted(heads))
@@ -250,7 +288,7 @@ def run(ctx):
             else:
                 report.nontriv("R6 frozen")
             # the transition: entering the following partition sets cursor = pointer position + 1
-            ent = [n for n in an.entry if n[1][0] == (1,) and n[1][1] == "e"]
+            ent = [n for n in an.entry if fmode(n) == 1 and n[1][1] == "e" and success_partition(n)]
             okt = False
             for n in ent:
                 st = an.entry[n]
